@@ -2,7 +2,7 @@
 import re
 
 from .common import *  # noqa: F401,F403
-from .common import classify_config_leaves, fkey, where, chain_str, arg_is_local, short, SERVER, CORE
+from .common import classify_config_leaves, fkey, where, chain_str, arg_is_local, short, SERVER, CORE, block_line
 from ..facts import op_place, op_const, AnchorLost, is_test_body
 from .. import flow
 
@@ -375,7 +375,36 @@ def r8_ws_receive_buffer_fresh(ctx):
                 where(c), {"origins": [flow.leaf_str(l) for l in leaves][:6]})
 
 
-RULES = [r8_ws_receive_buffer_fresh, r1_ws_frame_limit, r2_http_limit, r3_plumbing, r4_limit_before_read, r5_ws_oversize_arm, r6_size_gates, r7_server_builder_fields, rsib_entry_points_agree, rcfg_config_verbatim, rstatus_http_status_table, rin_inbound_limits_from_request_limit]
+def r9_receive_error_reaches_the_loop(ctx):
+    """the oversize refusal is decided in background_task's MessageTooLarge arm, so try_recv must hand every receive error
+    to it: the arm that binds a stream error `Some(Err(e))` returns `Receive::Err(e, ..)` on every path - it neither closes
+    the connection itself nor goes round its loop again (an oversized message would then be answered by a closed
+    connection, depending on the ping configuration, instead of -32007)."""
+    F, R = ctx.F, ctx.R
+    b = F.one(r"^jsonrpsee_server::transport::ws::try_recv::\{closure#0\}$")
+    R.fn(b)
+    binds = []
+    for bi, blk in enumerate(b.blocks):
+        if blk.get("cleanup") or bi not in b.reachable:
+            continue
+        for st in blk["st"]:
+            if st["s"] == "assign" and st["rv"]["k"] == "use" and not st["pl"].get("p"):
+                q = op_place(st["rv"]["op"])
+                if q is None:
+                    continue
+                ds = [e for e in q.get("p", []) if isinstance(e, dict) and "d" in e]
+                if ds and ds[-1]["d"] == "Err" and "soketto::connection::Error" in b.locals[st["pl"]["l"]]["ty"]:
+                    binds.append(bi)
+    R.floor("C07.R9", len(binds), 1, "bindings of a receive error in try_recv")
+    errs = {bi for bi, blk in enumerate(b.blocks) for st in blk["st"] if st["s"] == "assign" and st["rv"]["k"] == "agg" and st["rv"].get("variant") == "Err" and (st["rv"].get("adt") or "").endswith("ws::Receive")}
+    waits = {c.bb for c in b.calls_to(r"future::select$|IntoFuture>?::into_future$")}
+    exits = {bi for bi, blk in enumerate(b.blocks) if blk["term"] and blk["term"]["t"] == "return"}
+    for bi in binds:
+        ok = bi in errs or flow.all_paths_pass(b, bi, errs, waits | exits)
+        R.check(ok, "C07.R9", "try_recv:error-always-returned", "a receive error always leaves try_recv as Receive::Err", "try_recv can answer a receive error itself (a path from the error arm leaves without building Receive::Err - e.g. reports the connection as closed): an oversized message, which the caller answers with -32007 and survives, then closes the connection instead, depending on settings that have nothing to do with the size limit", "%s:%d" % (b.file, block_line(b, bi)))
+
+
+RULES = [r9_receive_error_reaches_the_loop, r8_ws_receive_buffer_fresh, r1_ws_frame_limit, r2_http_limit, r3_plumbing, r4_limit_before_read, r5_ws_oversize_arm, r6_size_gates, r7_server_builder_fields, rsib_entry_points_agree, rcfg_config_verbatim, rstatus_http_status_table, rin_inbound_limits_from_request_limit]
 
 LEVEL_TEXT = (
     "Structural necessary conditions decided exactly from the type-checked program: which configuration field every "
